@@ -39,13 +39,16 @@ func propC01(c *Ctx, r *Report) {
 		"numeric tables (E1): every SPIR-V opcode, GLSL.std.450 instruction, decoration, builtin, storage class, execution model/mode, capability and image format constant of the backend has the value the SPIR-V specification assigns (reference tables written independently of the repository)",
 		"operand consumption (E3): every SPIR-V emitter that dispatches on IR node kinds and reads all operand handles of >=3/4 of them reads every operand handle of every kind the frontend can produce and recurses into every nested block")
 	r.NotDecided = append(r.NotDecided,
-		"operand order and types, opcode selection for math builtins / conversions / atomics / image operations, access-chain indices, load/store placement, control-flow wiring, wrapper bodies, float accuracy - i.e. that the emitted module computes the WGSL result")
+		"operand order and types, native opcode selection for math builtins (OpDot, bit-field ops), conversions / atomics / image operations, access-chain indices, load/store placement, control-flow wiring, wrapper bodies, float accuracy - i.e. that the emitted module computes the WGSL result")
 	c.runSpirvTables(r)
 	r.Clauses = append(r.Clauses, "operator selection (E2 guarded-constant table): in the SPIR-V binary- and unary-operator dispatchers every OpCode constant is used only under (operator, scalar-kind) guard facts - case labels of the operator switch and the enclosing if/else/switch tests on the scalar kind - for which the WGSL->SPIR-V reference relation allows that opcode, and every feasible (operator, kind) pair reaches an allowed opcode")
 	runGuardedTable(c, r, "opsel.spirv", "spirv/internal/codegen", "BinaryOperator", "OpCode", spirvBinaryRef, nil)
 	runGuardedTable(c, r, "opsel.spirv", "spirv/internal/codegen", "UnaryOperator", "OpCode", spirvUnaryRef, nil)
 	r.floor("guarded.BinaryOperator.sites", 30)
 	r.floor("guarded.UnaryOperator.sites", 3)
+	r.Clauses = append(r.Clauses, "math builtin selection (E2 guarded-constant table): in the SPIR-V math dispatcher every GLSL.std.450 instruction constant is used only under (math function, operand scalar kind) guard facts for which the reference relation (WGSL builtin definition vs GLSL.std.450 instruction definition) allows it, e.g. round -> RoundEven, abs -> FAbs/SAbs/none, firstLeadingBit -> FindSMsb/FindUMsb, and every feasible pair reaches an allowed instruction")
+	runGuardedTableFrac(c, r, "mathsel.spirv", "spirv/internal/codegen", "MathFunction", "prefix:GLSLstd450", spirvMathRef, nil, 0.7)
+	r.floor("guarded.MathFunction.sites", 60)
 	c.runBackendWalk(r, spirvBackend())
 	r.floor("tables.OpCode", 150)
 	r.floor("tables.Decoration", 10)
